@@ -150,6 +150,9 @@ def pipeline(tier, rep, calibrate=True):
         if missing:
             raise vlib.ModelFailure("algo driver (%s) did not run groups %s" % (impl, missing[:5]))
         tv = validate(traces, "AlgoTrace_%s.cfg" % tier, "algo_tv_%s_%s" % (impl, tier), "1500m" if tier == "quick" else "2g")
+        if tier == "thorough":                      # ~0.7 GB per implementation; deviating events are kept in the result
+            for tp in traces:
+                os.remove(tp)
         res[impl] = (tv, groups)
     impls = ["etl", "std"] if calibrate else ["etl"]
     with ThreadPoolExecutor(max_workers=2) as ex:
